@@ -40,6 +40,17 @@ func resultType(cc *ssa.CallCommon) types.Type {
 func (g *gen) bindResult(res ssa.Value, v *Val) {
 	if res != nil && v != nil {
 		g.set(res, v)
+		if c, ok := res.(*ssa.Call); ok {
+			name := ""
+			if c.Call.IsInvoke() {
+				name = c.Call.Method.Name()
+			} else if f, ok := c.Call.Value.(*ssa.Function); ok {
+				name = f.Name()
+			}
+			if name != "" {
+				g.lastCall[name] = v
+			}
+		}
 	}
 }
 
@@ -50,6 +61,7 @@ func (g *gen) call(st *State, instr ssa.Instruction, cc *ssa.CallCommon, res ssa
 		recv := g.val(cc.Value)
 		g.oblige(st, "safe:nil", lbl, Neq(recv.L[0], Int(0)), "method call on nil interface")
 		key := fmt.Sprintf("(%s).%s", typeKey(cc.Value.Type()), cc.Method.Name())
+		g.checkCallGuards(st, cc.Method.Name(), lbl)
 		args := append([]*Val{recv}, g.argVals(cc)...)
 		if con := g.eng.contracts.byKey[key]; con != nil {
 			g.bindResult(res, g.applyContract(st, con, args, rt, lbl))
@@ -85,6 +97,17 @@ func (g *gen) call(st *State, instr ssa.Instruction, cc *ssa.CallCommon, res ssa
 		g.closureCall(st, fn, bs, g.argVals(cc), rt, res, lbl)
 		return
 	}
+	// call through a package-level function variable (e.g. colors.Red)
+	if ld, ok := cc.Value.(*ssa.UnOp); ok {
+		if gl, ok := ld.X.(*ssa.Global); ok {
+			key := gl.RelString(nil)
+			if g.eng.isAssumedPure(key) {
+				g.eng.useAssumption("assume-pure " + key + " (package-level function value, never nil)")
+				g.bindResult(res, g.freshResult(st, rt, gl.Name()))
+				return
+			}
+		}
+	}
 	// dynamic function value
 	fv := g.val(cc.Value)
 	g.oblige(st, "safe:nil", lbl, Neq(fv.L[0], Int(0)), "call of nil function value")
@@ -114,6 +137,10 @@ func (g *gen) closureCall(st *State, fn *ssa.Function, bindings, args []*Val, rt
 	key := fn.String()
 	if con := g.eng.contracts.byKey[key]; con != nil {
 		all := append(append([]*Val{}, args...), bindings...)
+		if con.Decl.Recv != nil {
+			// contract headers of closures repeat the enclosing method's receiver for naming only
+			all = append([]*Val{nil}, all...)
+		}
 		g.bindResult(res, g.applyContract(st, con, all, rt, lbl))
 		return
 	}
@@ -126,12 +153,16 @@ func (g *gen) closureCall(st *State, fn *ssa.Function, bindings, args []*Val, rt
 
 func (g *gen) staticCall(st *State, fn *ssa.Function, args []*Val, rt types.Type, res ssa.Value, lbl string) {
 	key := fn.String()
+	g.checkCallGuards(st, fn.Name(), lbl)
 	if con := g.eng.contracts.byKey[key]; con != nil {
 		g.eng.noteContractUse(g.fname, con)
 		g.bindResult(res, g.applyContract(st, con, args, rt, lbl))
 		return
 	}
 	if len(args) > 0 && g.mutexOp(st, key, args[0], lbl) {
+		return
+	}
+	if g.syncMapOp(st, key, args, rt, res, lbl) {
 		return
 	}
 	if g.eng.isAssumedPure(key) {
@@ -251,6 +282,12 @@ func (g *gen) checkPosts() {
 	for i, rp := range g.retStates {
 		g.curInstr = nil
 		env := g.specEnv(rp.st, g.entry)
+		if rp.vars != nil {
+			save := g.varAt
+			g.varAt = rp.vars
+			g.bindLocals(env)
+			g.varAt = save
+		}
 		g.bindResults(env, g.con, rp.results, rp.st)
 		suffix := ""
 		if len(g.retStates) > 1 {
@@ -285,7 +322,7 @@ func (g *gen) applyContract(st *State, con *Contract, args []*Val, rt types.Type
 	env := &SpecEnv{g: g, vars: map[string]*SV{}, cur: pre, old: pre, pkg: g.eng.typesPkg(con.Pkg)}
 	names := contractParamNames(con)
 	for i, n := range names {
-		if i < len(args) && n != "" && n != "_" {
+		if i < len(args) && n != "" && n != "_" && args[i] != nil {
 			env.vars[n] = &SV{V: args[i], St: pre}
 		}
 	}
@@ -331,7 +368,14 @@ func (g *gen) applyContract(st *State, con *Contract, args []*Val, rt types.Type
 	env2 := &SpecEnv{g: g, vars: env.vars, cur: post, old: pre, pkg: env.pkg}
 	g.bindResults(env2, con, results, post)
 	for _, c := range con.Ensures {
+		// a clause that mentions the callee's locals cannot be evaluated (or
+		// assumed) at a call site: it is skipped there
+		ne := len(g.specErrors)
 		f := g.evalBool(c.Expr, env2, false)
+		if len(g.specErrors) > ne {
+			g.specErrors = g.specErrors[:ne]
+			continue
+		}
 		g.assume(st, f)
 	}
 	if con.Trusted {
@@ -842,6 +886,55 @@ func (g *gen) bindLoopVars(env *SpecEnv, li *loopInfo, phis []*ssa.Phi) {
 	for _, p := range phis {
 		if p.Comment == "rangeindex" {
 			env.vars["idx__"] = &SV{V: scalar(types.Typ[types.Int], Add(g.val(p).L[0], Int(1)))}
+		}
+	}
+}
+
+// checkCallGuards: "guard-call" clauses — a call of a function whose name
+// matches the pattern is only reachable when the condition holds. The
+// condition may mention parameters (entry state), local variables visible at
+// the call and lastresult(F).
+func (g *gen) checkCallGuards(st *State, callee string, lbl string) {
+	if g.con == nil || g.dry > 0 {
+		return
+	}
+	for _, cg := range g.con.CallGuards {
+		if !cg.Pattern.MatchString(callee) {
+			continue
+		}
+		env := g.specEnv(st, g.entry)
+		g.bindLocals(env)
+		f := g.evalBool(cg.Cond.Expr, env, true)
+		g.oblige(st, "guard-call", cg.Cond.Label+":"+callee, f, "call of "+callee+" only when: "+cg.Cond.Text)
+	}
+}
+
+func (g *gen) checkStoreGuards(st *State, k LeafKey) {
+	if g.con == nil || g.dry > 0 {
+		return
+	}
+	for _, sg := range g.con.StoreGuards {
+		name := shortType(k.Type) + "." + k.Path
+		if !sg.Pattern.MatchString(name) {
+			continue
+		}
+		env := g.specEnv(st, g.entry)
+		g.bindLocals(env)
+		f := g.evalBool(sg.Cond.Expr, env, true)
+		g.oblige(st, "guard-store", sg.Cond.Label+":"+name, f, "store to "+name+" only when: "+sg.Cond.Text)
+	}
+}
+
+// bindLocals exposes source-level locals (dominator-correct) to a contract expression.
+func (g *gen) bindLocals(env *SpecEnv) {
+	for name, v := range g.varAt {
+		if _, isParam := env.vars[name]; isParam {
+			continue
+		}
+		if val, ok := g.vals[v]; ok {
+			env.vars[name] = &SV{V: val}
+		} else if c, ok := v.(*ssa.Const); ok {
+			env.vars[name] = &SV{V: g.constVal(c)}
 		}
 	}
 }
